@@ -271,6 +271,7 @@ def check_xcmp_deep(ck, tool='xcmp'):
                    '_ZNSt13basic_fstreamIcSt11char_traitsIcEE4openERKNSt7__cxx1112basic_stringIcS1_SaIcEEESt13_Ios_Openmode'):
             E.stubs[nm] = file_event('open')
         E.stubs['_ZNKSt13basic_filebufIcSt11char_traitsIcEE7is_openEv'] = lambda E_, st, a: 1
+        E.stubs['_ZNKSt12__basic_fileIcE7is_openEv'] = lambda E_, st, a: 1
         for nm in ('_ZNSt14basic_ofstreamIcSt11char_traitsIcEED1Ev', '_ZNSt13basic_fstreamIcSt11char_traitsIcEED1Ev', '_ZNSt14basic_ofstreamIcSt11char_traitsIcEE5closeEv', '_ZNSt13basic_fstreamIcSt11char_traitsIcEE5closeEv',
                    '_ZNSt13basic_filebufIcSt11char_traitsIcEEC1Ev', '_ZNSt13basic_filebufIcSt11char_traitsIcEE5closeEv', '_ZNSt9basic_iosIcSt11char_traitsIcEE4initEPSt15basic_streambufIcS1_E',
                    '_ZNSt9basic_iosIcSt11char_traitsIcEE5clearESt12_Ios_Iostate', '_ZNSt8ios_baseC2Ev'):
@@ -290,8 +291,6 @@ def check_xcmp_deep(ck, tool='xcmp'):
                 if creates: ok, why = False, f"output file {creates[0][2]} is created ({creates[0][1]}) although the source is rejected later: a new empty binary is left behind"
                 elif wrote: ok, why = False, "binary written although a stage failed"
                 elif is_c(status) and status == 0: ok, why = False, "exit status 0 although a stage failed"
-            else:
-                if creates: ok, why = False, f"file {creates[0][2]} created outside emitBin"
             ck.obligation(ok)
             if not ok:
                 key = f"{tool}:deep:{why[:50]}"
